@@ -710,3 +710,73 @@ Proof. exact precommit_ghost_is_spec_ghost. Qed.
 Print Assumptions C20_graph_precommit_ghost_is_spec_ghost.
 
 Local Open Scope N_scope.
+
+(* ---- the memoised ghosts along the run (coq/C20/GraphRunGhost.v) ---- *)
+From C20 Require Import GraphRunGhost.
+(* THE MEMOISED GHOSTS ALONG THE RUN.  For every tree, hash order and weighted voter set with
+   0 < total weight, and every history of (phase, vote) operations with phase tags 0/1 whose vote
+   sets are tolerant in both phases (the equivocators weigh at most total - threshold) and in which
+   the votes of voters of the voter set are for blocks of the tree: after EVERY prefix h1, folded
+   through the mirror's step (import, then PrecommitGHOST) from the initial round,
+     - the memoised prevote ghost (Round.prevoteGhost) is the specification's ghost g(V) of the
+       prevotes imported so far,
+     - the memoised precommit ghost (Round.precommitGhost, as PrecommitGHOST computes it: FindGHOST
+       over the precommit weights restarted from the previous precommit ghost) is the
+       specification's ghost g(C) of the precommits imported so far,
+     - each is None exactly while the votes of its phase weigh less than the threshold.
+   No hypothesis on the threshold gate of the Go code, on the order, on duplicates, on votes of
+   unknown voters. *)
+Theorem C20_graph_import_run_ghosts : forall t lbl ws, (0 < total ws)%N ->
+  forall (h : list (nat * vote)),
+  let votes ph l := map snd (filter (fun o : nat * vote => Nat.eqb (fst o) ph) l) in
+  (forall o, In o h -> (fst o < 2)%nat) ->
+  tolerant ws (votes 0%nat h) = true -> tolerant ws (votes 1%nat h) = true ->
+  (forall o, In o h -> known_voter ws (snd o) = true -> in_tree t (vblock (snd o))) ->
+  forall h1 h2, h = h1 ++ h2 ->
+  let s := fold_left (fun st o => step_op t lbl ws (fst o) (snd o) st) h1 rinit in
+  r_pvg s = ghost t ws (votes 0%nat h1) /\ r_pcg s = ghost t ws (votes 1%nat h1) /\
+  (r_pvg s = None <-> cur_weight ws (votes 0%nat h1) < threshold ws) /\
+  (r_pcg s = None <-> cur_weight ws (votes 1%nat h1) < threshold ws).
+Proof. exact run_ghosts_prefix. Qed.
+Print Assumptions C20_graph_import_run_ghosts.
+
+(* the same without prefixes, on the histories the mirror keeps (votes of known voters only) *)
+Theorem C20_graph_import_run_ghosts_known : forall t lbl ws, (0 < total ws)%N ->
+  forall (h : list (nat * vote)),
+  (forall o, In o h -> (fst o < 2)%nat) /\
+  tolerant ws (known_votes_of ws 0 h) = true /\ tolerant ws (known_votes_of ws 1 h) = true /\
+  (forall o, In o h -> known_voter ws (snd o) = true -> in_tree t (vblock (snd o))) ->
+  r_pvg (run t lbl ws h) = ghost t ws (known_votes_of ws 0 h) /\
+  r_pcg (run t lbl ws h) = ghost t ws (known_votes_of ws 1 h).
+Proof. exact run_ghosts. Qed.
+Print Assumptions C20_graph_import_run_ghosts_known.
+
+(* the votes of voters outside the voter set change neither the ghost nor the tolerance *)
+Theorem C20_ghost_ignores_unknown_voters : forall t ws S,
+  ghost t ws (filter (known_voter ws) S) = ghost t ws S /\
+  tolerant ws (filter (known_voter ws) S) = tolerant ws S.
+Proof. exact (fun t ws S => conj (ghost_known t ws S) (tolerant_known ws S)). Qed.
+Print Assumptions C20_ghost_ignores_unknown_voters.
+
+(* non-vacuity: the prevote ghost appears at the base, moves up to block 1 (a merge point inside
+   the ancestor edges of 2 and 3; block 1 never has a vote-node), stays over a duplicate, moves up
+   to block 2 on an equivocation (the restart from inside the edge), stays over an ignored vote and
+   a vote of an unknown voter; the precommit ghost appears at the merge point 1 and moves up to 2 *)
+Example C20_graph_import_run_ghosts_example :
+  let t := [0; 1; 1]%nat in let ws := [1; 1; 1; 1]%N in
+  let h := [(0, mkVote 0 2 0); (0, mkVote 1 3 0); (0, mkVote 2 0 0); (0, mkVote 3 2 0); (0, mkVote 3 2 0);
+            (0, mkVote 2 2 0); (0, mkVote 2 3 0); (0, mkVote 7 3 0);
+            (1, mkVote 0 2 0); (1, mkVote 1 2 0); (1, mkVote 3 3 0); (1, mkVote 2 2 0)]%nat in
+  (forall o, In o h -> (fst o < 2)%nat) /\ (0 < total ws)%N /\
+  tolerant ws (votes_of 0 h) = true /\ tolerant ws (votes_of 1 h) = true /\
+  (forall o, In o h -> known_voter ws (snd o) = true -> in_tree t (vblock (snd o))) /\
+  map (fun k => let s := run t (fun b => b) ws (firstn k h) in (r_pvg s, r_pcg s)) (seq 0 13) =
+    [(None, None); (None, None); (None, None); (Some 0, None); (Some 1, None); (Some 1, None);
+     (Some 2, None); (Some 2, None); (Some 2, None); (Some 2, None); (Some 2, None); (Some 2, Some 1);
+     (Some 2, Some 2)]%nat /\
+  map (fun k => (ghost t ws (votes_of 0 (firstn k h)), ghost t ws (votes_of 1 (firstn k h)))) (seq 0 13) =
+    [(None, None); (None, None); (None, None); (Some 0, None); (Some 1, None); (Some 1, None);
+     (Some 2, None); (Some 2, None); (Some 2, None); (Some 2, None); (Some 2, None); (Some 2, Some 1);
+     (Some 2, Some 2)]%nat /\
+  map fst (r_G (run t (fun b => b) ws h)) = [0; 2; 3]%nat.
+Proof. exact run_ghosts_example. Qed.
